@@ -67,7 +67,7 @@ def jobs(tier):
             # at()
             con = Contract(R(frm, 'position-from-this-input'), A(''),
                            E('__CPROVER_same_object(RETP, IN_BEGIN(self)) && OFF(RETP) == g_k', 'AT-POINTS-TO-THE-BYTE-OF-THE-POSITION', ('C19',)),
-                           E('__CPROVER_same_object(RETP, IN_BEGIN(self)) && OFF(RETP) <= g_n', 'AT-INSIDE-THE-INPUT', ('C19', 'C03')),
+                           E('__CPROVER_same_object(RETP, IN_BEGIN(self)) && OFF(RETP) <= g_n', 'AT-INSIDE-THE-INPUT', ('C19',)),
                            E('vf_canary', 'canary_exit'))
             out.append(Job('at_%s_%s' % (variant, tr[0]), grp, 'at', con, ('C19',), prelude=prelude(tr) + PRE,
                            harness=H % {'it': it, 'setup': setup, 'call': '$ENTRY(&in, &p)'}, expect_fail_canary=('canary_exit',),
@@ -77,7 +77,7 @@ def jobs(tier):
                           ' && p->column == (g_bol == 0 ? g_col0 : 1) + (g_k - g_bol)')
             con = Contract(R(frm2, 'position-from-this-input'), A(''),
                            E('__CPROVER_same_object(RETP, IN_BEGIN(self)) && OFF(RETP) == g_bol', 'BEGIN-OF-LINE-IS-THE-START-OF-THE-LINE', ('C19',)),
-                           E('__CPROVER_same_object(RETP, IN_BEGIN(self)) && OFF(RETP) <= g_n', 'BEGIN-OF-LINE-INSIDE-THE-INPUT', ('C19', 'C03')),
+                           E('__CPROVER_same_object(RETP, IN_BEGIN(self)) && OFF(RETP) <= g_n', 'BEGIN-OF-LINE-INSIDE-THE-INPUT', ('C19',)),
                            E('vf_canary', 'canary_exit'))
             out.append(Job('bol_%s_%s' % (variant, tr[0]), grp, 'bol', con, ('C19',), prelude=prelude(tr) + PRE,
                            harness=H % {'it': it, 'setup': setup, 'call': '$ENTRY(&in, &p)'}, expect_fail_canary=('canary_exit',),
